@@ -23,6 +23,25 @@ def sh(cmd, **kw):
     return subprocess.run(cmd, shell=True, capture_output=True, text=True, **kw)
 
 
+def write_md(sdir, results):
+    lines = ["# Seeded changes and the checks that catch them", "",
+             "Each row is a change to pyatv written by an independent sub-agent that saw only the property text",
+             "(seeded/<id>/patch.diff, demo.py, README.md, meta.json).  `caught` = the property's check exits 1 with a",
+             "VIOLATION line and a replay file holding a failing input; `caught (no failing input found)` = a proof",
+             "obligation or the model/code correspondence broke and the widened search found no input on which the",
+             "property itself fails (reported as `VIOLATION … no-failing-input-found`).", "",
+             "| seeded change | property | result | tier | what the check printed | needs to manifest |", "|---|---|---|---|---|---|"]
+    for sid in sorted(results):
+        r = results[sid]
+        needs = ""
+        mpath = os.path.join(sdir, sid, "meta.json")
+        if os.path.exists(mpath):
+            needs = json.load(open(mpath)).get("needs_to_manifest", "")
+        first = (r.get("lines") or [""])[0].replace("|", "/")
+        lines.append(f"| {sid} | {r.get('property')} | {r.get('status')} | {r.get('tier', '')} | `{first[:110]}` | {needs} |")
+    open(os.path.join(sdir, "RESULTS.md"), "w").write("\n".join(lines) + "\n")
+
+
 def main():
     ap = argparse.ArgumentParser()
     ap.add_argument("--tier", default="quick")
@@ -62,6 +81,7 @@ def main():
             sh(f"git -C {REPO} clean -fdq -- pyatv")
         print(f"{sid:28s} {prop}  {results[sid]['status']}")
     json.dump(results, open(rpath, "w"), indent=1, sort_keys=True)
+    write_md(sdir, results)
     missed = [s for s, r in results.items() if r["status"] == "MISSED"]
     print(f"{len(results)} seeded changes, {len(missed)} missed: {missed}")
 
